@@ -70,15 +70,24 @@ type c13Case struct {
 
 func evalC13(k c13Case) []pbt.Violation {
 	var first *inproc.Result
+	var firstVerdict string
 	runs := 8
 	for i := 0; i < runs; i++ {
 		r := inproc.Compile(k.Text, inproc.Langs)
-		if r.Panic != "" || r.ParseErr != "" || len(r.Diags) > 0 {
-			return nil // not an accepted program: other properties' business
+		if r.Panic != "" {
+			return nil // C11's business
 		}
+		// whether the program is accepted, and with which diagnostics, must not vary either
+		verdict := r.ParseErr + "|" + fmt.Sprint(r.Diags)
 		if first == nil {
-			first = r
+			first, firstVerdict = r, verdict
 			continue
+		}
+		if verdict != firstVerdict {
+			return []pbt.Violation{{Signature: "nondeterministic:acceptance", Detail: fmt.Sprintf("run 1 of the same DSL ends with diagnostics %q, run %d with %q", clip(firstVerdict, 200), i+1, clip(verdict, 200))}}
+		}
+		if r.ParseErr != "" || len(r.Diags) > 0 {
+			continue // rejected the same way every time: which programs are accepted is C12's business
 		}
 		for _, l := range inproc.Langs {
 			if first.GenErr[l] != r.GenErr[l] {
@@ -88,6 +97,9 @@ func evalC13(k c13Case) []pbt.Violation {
 				return []pbt.Violation{{Signature: "nondeterministic:" + l + ":" + fileClass(d), Detail: fmt.Sprintf("run 1 and run %d of the same DSL differ for %s: %s", i+1, l, d)}}
 			}
 		}
+	}
+	if first.ParseErr != "" || len(first.Diags) > 0 {
+		return nil
 	}
 	if len(first.GenErr) > 0 {
 		// a program some targets refuse (no root packet): the command line stops at the first
